@@ -205,7 +205,7 @@ func c11Microdata(r *hx.Rand, n int, out *hx.Out, _ []string) {
 				base = c10Resolve(c11Location, k.attrs[0][1])
 			}
 		}
-		res := zooRun("htmlmicrodata", []byte(doc), zooOpts{base: c11Location, offsets: rr.Chance(1, 4), itemtypeVocab: true})
+		res := zooRun("htmlmicrodata", []byte(doc), zooOpts{base: c11Location, itemtypeVocab: true})
 		impl, oracle := "!doc", ""
 		switch res.verdict {
 		case "ok":
